@@ -138,7 +138,8 @@ SOURCE_TIE = {
     "C07": (["C07_source", "C06_source_account", "C07_source_results"], "AccountClaims.Validate / Account.Validate and OperatorClaims.Validate / Operator.Validate (append exactly the model's v_account_claims / v_operator_claims, whose time-check issues C07_time_account / C07_time_operator count: the time issues of an account are those of its own standard fields, an embedded activation token adds none, and nothing is skipped when the claims are expired); the validation results themselves - CreateValidationResults, Add, AddError, AddWarning, AddTimeCheck, IsBlocking, IsEmpty, Errors, Warnings of both packages (a results object is its list of issues: nothing dropped, capped, replaced or shared) - and ClaimsData.Validate (v2 and v1compat), the time checks every kind delegates to"),
     "C08": ("C08_source", "OperatorClaims.DidSign and AccountClaims.DidSign"),
     "C09": ("C09_source", "RevocationList.Revoke / ClearRevocation / IsRevoked / allRevoked / MaybeCompact (v2 and v1compat), AccountClaims.IsClaimRevoked / isRevoked, Export.IsClaimRevoked / isRevoked"),
-    "C12": ("C12_source", "ClaimsData.doEncode (what a successful Encode did, in order, with an effect log; completeness; the empty token on failure), ClaimsData.encode and the Encode of all seven kinds, each proved to return what the model's encode returns under the full gate, with the same claims object afterwards"),
+    "C13": ("C13_source", "ClaimsData.hash (v2 and v1compat): the token id is the digest of the marshalled claims data and of nothing else - it fails exactly when json.Marshal of the claims data fails, otherwise it is the unpadded base32 text of what a fresh hash object, written that text once, sums to (for every reading of the hash object's methods), and the unknown functions it consults are pinned by name (json.Marshal, sha512.New512_256, the unpadded base32 encoder); with serialize = json.Marshal (C05_source_codec) and doEncode's order of steps (C12_source) the code side of 'equal content, equal token'"),
+    "C12": (["C12_source", "C13_source"], "ClaimsData.hash (the id is a function of the marshalled claims data alone, Properties/C13_source.v); ClaimsData.doEncode (what a successful Encode did, in order, with an effect log; completeness; the empty token on failure), ClaimsData.encode and the Encode of all seven kinds, each proved to return what the model's encode returns under the full gate, with the same claims object afterwards"),
     "C10": (["C10_source", "C10_source_import"], "Subject.IsContainedIn / HasWildCards (v2 and v1compat); Import.Validate with Import.IsService / IsStream / GetTo and ActivationClaims.validateWithTimeChecks (appends exactly the model's v_import, whose token part v_import_token the C10 theorems are about)"),
     "C14": ("C14_source", "UserScope.ValidateScopedSigner and UserClaims.HasEmptyPermissions (a scope accepts a claim exactly when the model's validate_scoped_signer does; reflect.DeepEqual an unknown function, instantiated by has_empty_permissions)"),
     "C16": ("C16_source", "Subject.IsContainedIn / HasWildCards and Exports.HasExportContainingSubject (v2 and v1compat; the query is true exactly when some non-nil entry's subject contains the one asked for)"),
